@@ -9,6 +9,8 @@ import (
 	"context"
 	"encoding/base64"
 	"fmt"
+	"net/http"
+	"net/http/httptest"
 	"os"
 	"runtime"
 	"runtime/debug"
@@ -49,8 +51,9 @@ type VerifC11Case struct {
 	Workers int           `json:"workers"`
 	Iters   int           `json:"iters"`
 	// barrier: Reqs[i] = requester i asks for a fullsync ticket; all requesters of a round use the SAME job id
-	Reqs   []bool `json:"reqs"`
-	Rounds int    `json:"rounds"`
+	Reqs     []bool `json:"reqs"`
+	Rounds   int    `json:"rounds"`
+	Distinct bool   `json:"distinct"` // barrier: every requester has its OWN job id (pool limit) instead of one shared id
 }
 
 type VerifC11Obs struct {
@@ -67,6 +70,24 @@ type VerifC11Obs struct {
 	Running  int     `json:"running"`
 	Hist     []int   `json:"hist"`    // barrier: Hist[g] = rounds in which g requesters held a ticket for the id at the same time
 	BadAcct  int     `json:"badAcct"` // barrier: rounds after which pools / running set were not back at their initial values
+}
+
+// verifC11EnvCfg builds the configuration the way the hub does: conf.NewConfig reading the environment
+// (JOBS_MAX_FULLSYNC / JOBS_MAX_INCREMENTAL), so that the wiring of the pool sizes is part of what is checked.
+func verifC11EnvCfg(dir string, poolFull, poolIncr int) *conf.Config {
+	_ = os.Setenv("JOBS_MAX_FULLSYNC", strconv.Itoa(poolFull))
+	_ = os.Setenv("JOBS_MAX_INCREMENTAL", strconv.Itoa(poolIncr))
+	_ = os.Setenv("STORE_LOCATION", dir)
+	devNull, _ := os.Open(os.DevNull)
+	cfg, err := conf.NewConfig()
+	_ = devNull.Close()
+	if err != nil || cfg == nil || cfg.RunnerConfig == nil {
+		panic(fmt.Sprint("verif: conf.NewConfig failed: ", err))
+	}
+	cfg.Logger = zap.NewNop().Sugar()
+	cfg.StoreLocation = dir
+	cfg.RunnerConfig.Concurrent = 0
+	return cfg
 }
 
 func verifC11Cfg(dir string) *conf.Config {
@@ -112,7 +133,7 @@ const verifC11N = 15
 func VerifC11RunCfg(c VerifC11Case, dir string) (obs VerifC11Obs) {
 	debug.SetMaxStack(4 << 20) // a runaway recursion ends quickly (default limit is 1 GB)
 	_ = os.MkdirAll(dir, 0o755)
-	cfg := verifC11Cfg(dir)
+	cfg := verifC11EnvCfg(dir, 5, 10)
 	sd := &verifC11PanicStatsd{armed: c.Transform == "panic"}
 	store := server.NewStore(cfg, sd)
 	bus, err := server.NewBus(cfg)
@@ -150,6 +171,12 @@ func VerifC11RunCfg(c VerifC11Case, dir string) (obs VerifC11Obs) {
 		"sample":  fmt.Sprintf(`{"Type":"SampleSource","NumberOfEntities":%d}`, verifC11N),
 		"slow":    fmt.Sprintf(`{"Type":"SlowSource","Sleep":"400ms","BatchSize":%d}`, verifC11N),
 	}[c.Source]
+	var remote *verifC11Remote
+	if c.Source == "http" || c.Source == "httpmid" {
+		remote = verifC11NewRemote(c.Kill, c.Source == "httpmid")
+		// not closed: httptest.Server.Close waits for the stalled request; the process exits after this case anyway
+		source = fmt.Sprintf(`{"Type":"HttpDatasetSource","Url":"%s/entities"}`, remote.srv.URL)
+	}
 	sink := map[string]string{
 		"devnull": `{"Type":"DevNullSink"}`,
 		"dataset": `{"Type":"DatasetSink","Name":"dst"}`,
@@ -161,6 +188,7 @@ func VerifC11RunCfg(c VerifC11Case, dir string) (obs VerifC11Obs) {
 		"js":    fmt.Sprintf(`"transform":{"Type":"JavascriptTransform","Code":"%s"},`, code),
 		"panic": fmt.Sprintf(`"transform":{"Type":"JavascriptTransform","Code":"%s"},`, code),
 		"jspar": fmt.Sprintf(`"transform":{"Type":"JavascriptTransform","Parallelism":10,"Code":"%s"},`, code),
+		"nocode": `"transform":{"Type":"JavascriptTransform"},`,
 		"empty": fmt.Sprintf(`"transform":{"Type":"JavascriptTransform","Code":"%s"},`,
 			base64.StdEncoding.EncodeToString([]byte(`function transform_entities(entities) { return []; }`))),
 	}[c.Transform]
@@ -212,14 +240,24 @@ func VerifC11RunCfg(c VerifC11Case, dir string) (obs VerifC11Obs) {
 	} else {
 		bus.Emit(context.Background(), "dataset.src", nil)
 	}
+	waitFor := 25 * time.Second
 	if c.Kill {
 		for i := 0; i < 5000 && runner.raffle.runningJob(id) == nil; i++ {
 			time.Sleep(time.Millisecond)
 		}
+		if remote != nil {
+			// kill while the remote stalls (before the response / in the middle of the body)
+			select {
+			case <-remote.stalled:
+			case <-time.After(10 * time.Second):
+			}
+			time.Sleep(20 * time.Millisecond)
+			waitFor = 8 * time.Second
+		}
 		sched.KillJob(id)
 	}
 	// wait for the run to end: result stored and slot released; or nothing running and no result for a while
-	deadline := time.Now().Add(25 * time.Second)
+	deadline := time.Now().Add(waitFor)
 	idle := 0
 	for time.Now().Before(deadline) {
 		time.Sleep(5 * time.Millisecond)
@@ -251,6 +289,54 @@ func VerifC11RunCfg(c VerifC11Case, dir string) (obs VerifC11Obs) {
 	// the process exits right after this (store.Close costs about a second and is not needed: died runs are
 	// re-read by the parent from the files, live ones report what they read themselves)
 	return
+}
+
+// verifC11Remote is the remote data layer of an HttpDatasetSource: it serves verifC11N entities; when stall is set the
+// FIRST request stalls (before the response, or after half of the body) until the client gives up, later requests
+// are answered with 500 (so that a re-run after the kill does not succeed behind the observer's back).
+type verifC11Remote struct {
+	srv     *httptest.Server
+	stalled chan struct{}
+	reqs    int32
+}
+
+func verifC11NewRemote(stall, mid bool) *verifC11Remote {
+	r := &verifC11Remote{stalled: make(chan struct{}, 4)}
+	r.srv = httptest.NewServer(http.HandlerFunc(func(w http.ResponseWriter, req *http.Request) {
+		n := atomic.AddInt32(&r.reqs, 1)
+		if stall && n > 1 {
+			http.Error(w, "verif remote: gone", http.StatusInternalServerError)
+			return
+		}
+		body := `[{"id":"@context","namespaces":{"ex":"http://v/"}}`
+		for i := 0; i < verifC11N; i++ {
+			body += fmt.Sprintf(`,{"id":"ex:e%d","refs":{},"props":{"ex:idx":%d}}`, i, i)
+		}
+		body += `]`
+		if stall && !mid {
+			r.stalled <- struct{}{}
+			select {
+			case <-req.Context().Done():
+			case <-time.After(60 * time.Second):
+			}
+			return
+		}
+		w.Header().Set("Content-Type", "application/json")
+		if stall && mid {
+			_, _ = w.Write([]byte(body[:len(body)/2]))
+			if f, ok := w.(http.Flusher); ok {
+				f.Flush()
+			}
+			r.stalled <- struct{}{}
+			select {
+			case <-req.Context().Done():
+			case <-time.After(60 * time.Second):
+			}
+			return
+		}
+		_, _ = w.Write([]byte(body))
+	}))
+	return r
 }
 
 // verifC11PanicStatsd makes "a run panics" a building block of its own: both pipelines call
@@ -336,8 +422,8 @@ func (env *VerifC11Env) Close() {
 func (env *VerifC11Env) RunRaffle(c VerifC11Case) (obs VerifC11Obs) {
 	rec := &verifC11Rec{}
 	logger := zap.NewNop().Sugar()
-	runner := &Runner{logger: logger, store: env.store, statsdClient: rec,
-		raffle: NewRaffle(c.CapF, c.CapI, logger, rec), eventBus: server.NoOpBus()}
+	_ = logger
+	runner := NewRunner(verifC11EnvCfg(env.dir, c.CapF, c.CapI), env.store, nil, server.NoOpBus(), rec)
 	jobs := make([]*job, len(c.Jobs))
 	for i, jd := range c.Jobs {
 		id := "r" + strconv.Itoa(jd.ID)
@@ -400,16 +486,20 @@ func (env *VerifC11Env) RunRaffle(c VerifC11Case) (obs VerifC11Obs) {
 // active runs of that id.  Then all tickets are returned and the pool accounting is looked at.
 func (env *VerifC11Env) RunBarrier(c VerifC11Case) (obs VerifC11Obs) {
 	logger := zap.NewNop().Sugar()
+	_ = logger
 	sd := &statsd.NoOpClient{}
-	r := NewRaffle(c.CapF, c.CapI, logger, sd)
-	runner := &Runner{logger: logger, store: env.store, statsdClient: sd, raffle: r, eventBus: server.NoOpBus()}
+	runner := NewRunner(verifC11EnvCfg(env.dir, c.CapF, c.CapI), env.store, nil, server.NoOpBus(), sd)
+	r := runner.raffle
 	g := len(c.Reqs)
 	const nids = 4
 	jobs := make([][]*job, nids)
 	for k := 0; k < nids; k++ {
-		id := "b" + strconv.Itoa(k)
 		jobs[k] = make([]*job, g)
 		for i, full := range c.Reqs {
+			id := "b" + strconv.Itoa(k)
+			if c.Distinct {
+				id += "-" + strconv.Itoa(i)
+			}
 			jobs[k][i] = &job{id: id, title: id, runner: runner, isEvent: i%2 == 1,
 				pipeline: &verifC11Pipeline{spc: PipelineSpec{source: &jobSource.SampleSource{}, sink: &devNullSink{}}, full: full, idx: k}}
 		}
